@@ -1,9 +1,10 @@
 (* C09 on the executable queued model (Model/Proto2Queue.v over Model/P2Inst.v), by evaluation of the concrete
    delivery orders of Proofs/P2_QueueWitnessData.v:
-     - the lost wake-up that is still open (SERIALIZABLE gates, F-02d),
-     - a livelock behind such a gate (F-C09-22): everything pending is a pair of proposals that re-queue each other for ever,
+     - the lost wake-up that is still open (F-C09-23: a proposal in APPLYING is not woken when its configuration becomes
+       synchronised, the proposals behind it being COMMITTED without apply phase behind its SERIALIZABLE transaction),
+     - a livelock in that situation (F-C09-22): everything pending is a pair of proposals that re-queue each other for ever,
      - regression examples: the scenarios of the repaired lost wake-ups (F-02a dead_prev, F-02b initfail_successor,
-       F-02e sync_wakeup, commit_hidden_by_apply) and of the repaired wedged target (F-21 = F-C09-21) now end idle, at a fixed
+       F-02e sync_wakeup, F-02d serializable_gate, commit_hidden_by_apply) and of the repaired wedged target (F-21 = F-C09-21) now end idle, at a fixed
        point, with every transaction final,
      - the hypotheses of the fixed-point theorem are satisfiable on a non-trivial reachable world. *)
 From stdpp Require Import gmap.
@@ -14,14 +15,17 @@ Open Scope N_scope.
 
 Definition phis (o : option ph) (p : ph) : bool := bool_decide (o = Some p).
 
-(** * Signature of the open lost wake-up: a transaction parked at one of the three SERIALIZABLE gates *)
-Definition sig_serializable_gate (w : Wd) (c : ctrl) : bool :=
+(** * Signature of the open lost wake-up (F-C09-23): a proposal in APPLYING whose turn it is (the applied index is its
+      predecessor) on a target that is mastered and synchronised *)
+Definition sig_apply_ready (w : Wd) (c : ctrl) : bool :=
   match c with
-  | CtlTx i => match txs w !! i with
-               | Some T => is_none (t_abort T) && is_none (t_apply T) &&
-                           ((phis (t_init T) Done && is_none (t_validate T)) || (phis (t_validate T) Done && is_none (t_commit T))
-                            || phis (t_commit T) Done)
-               | None => false end
+  | CtlProp (t, i) =>
+    match props w !! (t, i), cfgs w !! t with
+    | Some P, Some C =>
+      phis (p_apply P) Doing && (c_applied C <? i) && ((p_prev P =? 0) || (c_applied C =? p_prev P))
+      && negb (bool_decide (c_state C = CSynchronizing)) && negb (c_aterm C <? c_term C)
+      && match c_master C with Some m => negb (is_none (conns w !! m)) | None => false end
+    | _, _ => false end
   | _ => false end.
 
 (* reachability in the executable queued model *)
@@ -62,10 +66,13 @@ Proof.
   intros E. rewrite E in H4. discriminate.
 Qed.
 
-Theorem lost_wakeup_serializable_gate : lost_wakeup sig_serializable_gate.
-Proof. apply (lost_wakeup_by _ wit_serializable_gate (CtlTx 2)). vm_compute. reflexivity. Qed.
+(* a SERIALIZABLE change and a plain change committed before the device connects; then it connects: the first proposal
+   is never woken (the configuration event names the newest proposal, which is COMMITTED without apply phase - its
+   transaction waits at the apply gate for the first one - and hands over to its successor, not to its predecessor) *)
+Theorem lost_wakeup_sync_serializable : lost_wakeup sig_apply_ready.
+Proof. apply (lost_wakeup_by _ wit_sync_serializable (CtlProp (1, 1))). vm_compute. reflexivity. Qed.
 
-(** * The work queue need not drain: a livelock behind a SERIALIZABLE gate (F-02d + F-C09-22) *)
+(** * The work queue need not drain: a livelock behind a SERIALIZABLE transaction that is not woken (F-C09-23 + F-C09-22) *)
 (* a reachable world, every target connected, a transaction not final, in which everything that is pending is a pair of
    proposals whose reconciles - whatever the oracle - do nothing but re-queue each other: whatever is delivered from here
    on, the world stays as it is and the queue never becomes empty *)
@@ -105,6 +112,12 @@ Example regression_apply_failed : ends_well reg_apply_failed = true.
 Proof. vm_compute. reflexivity. Qed.
 (* rollback of a missing index, then a Set (F-02b) *)
 Example regression_initfail_successor : ends_well reg_initfail_successor = true.
+Proof. vm_compute. reflexivity. Qed.
+(* SERIALIZABLE Set, then a Set on the same target (F-02d) *)
+Example regression_serializable_gate : ends_well reg_serializable_gate = true.
+Proof. vm_compute. reflexivity. Qed.
+(* SERIALIZABLE Set, then two Sets on the same target (F-02d, F-C09-22) *)
+Example regression_serializable_three : ends_well reg_serializable_three = true.
 Proof. vm_compute. reflexivity. Qed.
 (* Set and its rollback before the device ever connects, then it connects (F-02e) *)
 Example regression_sync_wakeup : ends_well reg_sync_wakeup = true.
